@@ -89,6 +89,19 @@ CHECKS["C22"] = dict(
    design="5/C22", technique="Coq proof of cardinality; exhaustive small-width sweep of the real joins/meets/queries",
    note="Trusted: Coq kernel; Model/SI.v; sweep oracle = member enumeration from the definition. Mostly testing, not proof.")
 
+CHECKS["C23"] = dict(
+   text="Machine-checked proof (Coq), generic in the element domain: an operation applied to every (pair of) member(s) of sets of abstract "
+        "values contains every concrete result whenever the element operation is sound under its side condition (C23_lift2, C23_lift1); "
+        "collapsing/normalising with a sound join keeps every member value (C23_collapse, C23_normalize); for region value sets, applying "
+        "an operation in every region and the union of two value sets are sound separately per region (C23_vmap, C23_vunion). Instances "
+        "over the strided-interval model for every width and any number of members: C23_dsis_add, C23_dsis_sub, C23_dsis_neg, C23_vs_add. "
+        "Tie: the extracted lifted add/sub/neg and value-set add/sub are compared member set by member set with the real "
+        "DiscreteStridedIntervalSet / ValueSet, and the traced model union with the region structure of the real union. Search: every "
+        "lifted operation, union, collapse, normalize, intersection, comparison and query of the real classes against the member-level "
+        "results (testing). Interval join/cardinality and the other transfer functions are parameters of the theorems (C21/C22).",
+   design="5/C23", technique="Coq proof of the lifting principle + instances; correspondence by extraction; relative soundness search",
+   note="Trusted: Coq kernel; extraction; Model/Lift.v hand-written. Two defects repaired (DSIS.__neg__, StridedInterval.__hash__).")
+
 CHECKS["C12"] = dict(
    text="Machine-checked proof (Coq) of the principle SolverComposite rests on, for every set of constraint groups: if the groups share no "
         "variable, the whole is satisfiable iff every group is (C12_sat, by gluing assignments), and the values an expression takes over "
